@@ -102,7 +102,12 @@ class DofsRun:
 
 
 def run_dofs(model: Model, dim: int, counts: Dict[str, int],
-             tables: Dict[str, int]) -> DofsRun:
+             tables: Dict[str, int], elem_dim: int = None) -> DofsRun:
+    """dim: dimension of the cells; elem_dim: what ``element.dim`` answers -
+    for ElementVector that is the number of *components*, which need not
+    equal the dimension of the cells"""
+    if elem_dim is None:
+        elem_dim = dim
     cls = model.cls("skfem.assembly.dofs", "Dofs")
     fn = cls.methods.get("__init__")
     if fn is None:
@@ -112,7 +117,9 @@ def run_dofs(model: Model, dim: int, counts: Dict[str, int],
     class Element:
         def skv_getattr(self, name):
             if name == "dim":
-                return dim
+                return elem_dim
+            if name == "refdom":
+                return Obj(None, {"dim": PyFunc(lambda a, k, n: dim)})
             if name.endswith("_dofs") and name[:-5] in sym:
                 return sym[name[:-5]]
             raise Unsupported(f"element.{name}")
@@ -121,6 +128,8 @@ def run_dofs(model: Model, dim: int, counts: Dict[str, int],
         def skv_getattr(self, name):
             if name in ("nvertices", "nedges", "nfacets", "nelements"):
                 return Poly.sym(name)
+            if name == "dim":
+                return PyFunc(lambda a, k, n: dim)
             if name in tables:
                 return Table(name, tables[name])
             raise Unsupported(f"topo.{name}")
